@@ -70,6 +70,12 @@ def gen_cases(rng, tier):
                           'counters': ci, 'hashpath': False, 'pretty': False, 'two_dumps': True})
             cases.append({'kind': 'dump', 'pkg': rows_enc_pkg([rows5, rows5[:3]]), 'format': fmt, 'zip': ci == 1, 'mode': 'fresh', 'bad': 0,
                           'counters': ci, 'hashpath': False, 'pretty': False, 'stopper': True})
+    # resource names (and so file names) with dots in them, equal up to the first dot: each resource has a file of its own,
+    # and what is recorded for a resource describes the file at its path (round 8)
+    for fmt in ('csv', 'json'):
+        for z in (False, True):
+            cases.append({'kind': 'dump', 'pkg': rows_enc_pkg([rows5, rows5[:3], rows5[:1]]), 'format': fmt, 'zip': z, 'mode': 'fresh', 'bad': 0,
+                          'counters': 0, 'hashpath': False, 'pretty': False, 'names': ['sales.2019', 'sales.2020', 'sales.2020.q1']})
     # systematically: add_filehash_to_path with resources whose files are byte-identical (they share the hash directory),
     # dumped afresh and again into the same directory
     rows = [{'id': j, 't': 'x', 'n': None} for j in range(2)]
@@ -109,7 +115,7 @@ def dump_once(case, target, source=None, extra=0):
         rr = rows_dec(rows) + [{'id': 1000 + j, 't': 'more', 'n': None} for j in range(extra)]
         for j in range(case.get('bad', 0)):
             rr.insert(min(len(rr), 1 + j), {'id': 'not-a-number-%d' % j, 't': 'bad', 'n': None})
-        res.append({'name': 'r%d' % i, 'fields': [{'name': 'id', 'type': 'integer'}, {'name': 't', 'type': 'string'},
+        res.append({'name': case['names'][i] if case.get('names') else 'r%d' % i, 'fields': [{'name': 'id', 'type': 'integer'}, {'name': 't', 'type': 'string'},
                                                     {'name': 'n', 'type': 'number'}], 'rows': rr})
     kw = {'format': case['format'], 'add_filehash_to_path': case['hashpath'], 'pretty_descriptor': case['pretty']}
     if COUNTERS[case['counters']] is not None:
